@@ -82,10 +82,10 @@ Norm(t) ==
 (***************************************************************************)
 PAR(ts) == <<TBr("(")>> \o ts \o <<TBr(")")>>
 
-RECURSIVE Opn(_, _, _, _), Top(_, _), Atom(_, _), TopList(_, _, _), Pairs(_, _, _, _)
+RECURSIVE Opn(_, _, _, _), TopP(_, _), Atom(_, _), TopList(_, _, _), Pairs(_, _, _, _)
 
 PBase(x, stepNs, full) ==
-  IF PostfixBase(x) /\ (ChainNS(x) => stepNs) THEN Atom(x, full) ELSE PAR(Top(x, full))
+  IF PostfixBase(x) /\ (ChainNS(x) => stepNs) THEN Atom(x, full) ELSE PAR(TopP(x, full))
 
 (* the step operator: in mode "sticky" a nil-safe step on a chain that is     *)
 (* already nil-safe is written with a plain dot (the flag is sticky)         *)
@@ -93,11 +93,11 @@ StepOp(t, full) == TOp(IF t.ns /\ ~(full = "sticky" /\ PostfixBase(t.x) /\ Chain
 
 TopList(ts, i, full) ==
   IF i > Len(ts) THEN <<>>
-  ELSE Top(ts[i], full) \o (IF i < Len(ts) THEN <<TOp(",")>> ELSE <<>>) \o TopList(ts, i + 1, full)
+  ELSE TopP(ts[i], full) \o (IF i < Len(ts) THEN <<TOp(",")>> ELSE <<>>) \o TopList(ts, i + 1, full)
 
 Pairs(ks, vs, i, full) ==
   IF i > Len(ks) THEN <<>>
-  ELSE <<TStr(ks[i]), TOp(":")>> \o Top(vs[i], full) \o (IF i < Len(ks) THEN <<TOp(",")>> ELSE <<>>)
+  ELSE <<TStr(ks[i]), TOp(":")>> \o TopP(vs[i], full) \o (IF i < Len(ks) THEN <<TOp(",")>> ELSE <<>>)
        \o Pairs(ks, vs, i + 1, full)
 
 Atom(t, full) ==
@@ -111,14 +111,14 @@ Atom(t, full) ==
     [] t.k = "prop"  -> PBase(t.x, t.ns, full) \o <<StepOp(t, full), TId(t.name)>>
     [] t.k = "meth"  -> PBase(t.x, t.ns, full) \o <<StepOp(t, full), TId(t.name), TBr("(")>>
                           \o TopList(t.args, 1, full) \o <<TBr(")")>>
-    [] t.k = "idx"   -> PBase(t.x, TRUE, full) \o <<TBr("[")>> \o Top(t.i, full) \o <<TBr("]")>>
+    [] t.k = "idx"   -> PBase(t.x, TRUE, full) \o <<TBr("[")>> \o TopP(t.i, full) \o <<TBr("]")>>
     [] t.k = "slice" -> PBase(t.x, TRUE, full) \o <<TBr("[")>>
-                          \o (IF t.from.k = "none" THEN <<>> ELSE Top(t.from, full)) \o <<TOp(":")>>
-                          \o (IF t.to.k = "none" THEN <<>> ELSE Top(t.to, full)) \o <<TBr("]")>>
+                          \o (IF t.from.k = "none" THEN <<>> ELSE TopP(t.from, full)) \o <<TOp(":")>>
+                          \o (IF t.to.k = "none" THEN <<>> ELSE TopP(t.to, full)) \o <<TBr("]")>>
     [] t.k = "call"  -> <<TId(t.name), TBr("(")>> \o TopList(t.args, 1, full) \o <<TBr(")")>>
-    [] t.k = "len"   -> <<TId("len"), TBr("(")>> \o Top(t.x, full) \o <<TBr(")")>>
-    [] t.k = "bi"    -> <<TId(t.name), TBr("(")>> \o Top(t.x, full) \o <<TOp(","), TBr("{")>>
-                          \o Top(t.body, full) \o <<TBr("}"), TBr(")")>>
+    [] t.k = "len"   -> <<TId("len"), TBr("(")>> \o TopP(t.x, full) \o <<TBr(")")>>
+    [] t.k = "bi"    -> <<TId(t.name), TBr("(")>> \o TopP(t.x, full) \o <<TOp(","), TBr("{")>>
+                          \o TopP(t.body, full) \o <<TBr("}"), TBr(")")>>
     [] t.k = "arr"   -> <<TBr("[")>> \o TopList(t.xs, 1, full) \o <<TBr("]")>>
     [] t.k = "map"   -> <<TBr("{")>> \o Pairs(t.ks, t.vs, 1, full) \o <<TBr("}")>>
 
@@ -135,7 +135,7 @@ Opn(t, minp, rp, full) ==
          LET u == UPrec(t.op)
              body(rpp) == <<TOp(t.op)>> \o Opn(t.x, u, rpp, full)
          IN IF full # "full" /\ rp < u THEN body(rp) ELSE PAR(body(0))
-    [] t.k = "cond" -> PAR(Top(t, full))
+    [] t.k = "cond" -> PAR(TopP(t, full))
     [] OTHER -> Atom(t, full)
 
 TopOpn(t, full) ==
@@ -147,15 +147,15 @@ TopOpn(t, full) ==
 
 (* a slot parsed at precedence 0: the whole text, the inside of brackets,  *)
 (* arguments, elements, bounds, closure bodies, both branches              *)
-Top(t, full) ==
+TopP(t, full) ==
   IF t.k = "cond"
-  THEN (IF t.c.k = "cond" THEN PAR(Top(t.c, full)) ELSE TopOpn(t.c, full))
-       \o <<TOp("?")>> \o Top(t.a, full) \o <<TOp(":")>> \o Top(t.b, full)
+  THEN (IF t.c.k = "cond" THEN PAR(TopP(t.c, full)) ELSE TopOpn(t.c, full))
+       \o <<TOp("?")>> \o TopP(t.a, full) \o <<TOp(":")>> \o TopP(t.b, full)
   ELSE TopOpn(t, full)
 
-Min(t)    == Top(t, "min")
-Full(t)   == Top(t, "full")
-Sticky(t) == Top(t, "sticky")
+Min(t)    == TopP(t, "min")
+Full(t)   == TopP(t, "full")
+Sticky(t) == TopP(t, "sticky")
 
 ---------------------------------------------------------------------------
 (* Text of a token sequence under a layout.                                *)
@@ -187,9 +187,28 @@ Join(toks, i, seps) ==
                 IN IF sep = "" /\ NeedSpace(toks[i], toks[i + 1]) THEN " " ELSE sep)
        \o Join(toks, i + 1, seps)
 
+(* the (line, column) of token k under the same layout: lines from 1, columns  *)
+(* from 0; `pre` is the text written before the first token                    *)
+RECURSIVE AdvText(_, _, _, _)
+AdvText(str, i, line, col) ==
+  IF i > Len(str) THEN <<line, col>>
+  ELSE IF SubSeq(str, i, i) = "\n" THEN AdvText(str, i + 1, line + 1, 0) ELSE AdvText(str, i + 1, line, col + 1)
+RECURSIVE PosFrom(_, _, _, _, _, _)
+PosFrom(toks, i, seps, k, line, col) ==
+  IF i = k THEN [line |-> line, col |-> col]
+  ELSE LET a == AdvText(TokText(toks[i]), 1, line, col)
+           sep0 == seps[((i - 1) % Len(seps)) + 1]
+           sep == IF sep0 = "" /\ NeedSpace(toks[i], toks[i + 1]) THEN " " ELSE sep0
+           b == AdvText(sep, 1, a[1], a[2])
+       IN PosFrom(toks, i + 1, seps, k, b[1], b[2])
+PosOfTok(toks, pre, seps, k) == LET a == AdvText(pre, 1, 1, 0) IN PosFrom(toks, 1, seps, k, a[1], a[2])
+WildSeps == <<" ", "\n", "\t ", "", "  \n ", "">>
+PosMin(toks, k)  == PosOfTok(toks, "", <<"">>, k)
+PosWild(toks, k) == PosOfTok(toks, " ", WildSeps, k)
+
 TextMin(toks)    == Join(toks, 1, <<"">>)
 TextSpaced(toks) == Join(toks, 1, <<" ">>)
-TextWild(toks)   == " " \o Join(toks, 1, <<" ", "\n", "\t ", "", "  \n ", "">>) \o "\n"
+TextWild(toks)   == " " \o Join(toks, 1, WildSeps) \o "\n"
 
 ---------------------------------------------------------------------------
 (* The reference parser: precedence climbing over the tables above.        *)
